@@ -7,11 +7,17 @@ mod c01;
 mod c02;
 mod child;
 mod c03;
+mod c05;
+mod c06;
+mod c07;
+mod roll;
+mod fsx;
 mod c09;
 mod c10;
 mod c11;
 mod c12;
 mod c13;
+mod c17;
 mod pat;
 
 use engine::*;
@@ -33,10 +39,14 @@ fn props() -> Vec<Prop> {
         Prop { id: "C01", run: c01::run, replay: c01::replay, meta: c01::meta, workers: (1, 16), also_release: false },
         Prop { id: "C02", run: c02::run, replay: c02::replay, meta: c02::meta, workers: (8, 16), also_release: false },
         Prop { id: "C03", run: c03::run, replay: c03::replay, meta: c03::meta, workers: (1, 16), also_release: false },
+        Prop { id: "C05", run: c05::run, replay: c05::replay, meta: c05::meta, workers: (4, 16), also_release: false },
+        Prop { id: "C06", run: c06::run, replay: c06::replay, meta: c06::meta, workers: (4, 16), also_release: false },
+        Prop { id: "C07", run: c07::run, replay: c07::replay, meta: c07::meta, workers: (4, 16), also_release: false },
         Prop { id: "C09", run: c09::run, replay: c09::replay, meta: c09::meta, workers: (1, 8), also_release: true },
         Prop { id: "C11", run: c11::run, replay: c11::replay, meta: c11::meta, workers: (4, 16), also_release: true },
         Prop { id: "C12", run: c12::run, replay: c12::replay, meta: c12::meta, workers: (1, 16), also_release: false },
         Prop { id: "C13", run: c13::run, replay: c13::replay, meta: c13::meta, workers: (1, 16), also_release: false },
+        Prop { id: "C17", run: c17::run, replay: c17::replay, meta: c17::meta, workers: (4, 16), also_release: false },
         Prop { id: "C10", run: c10::run, replay: c10::replay, meta: c10::meta, workers: (1, 16), also_release: false },
     ]
 }
@@ -77,6 +87,8 @@ fn main() {
     }
     // one fixed-offset zone so that (utc) and (local) differ and no DST edge is ever hit;
     // children that study time zones (C16) set their own TZ before chrono is first used
+    std::env::set_var("LV_SET", "envdir");
+    std::env::remove_var("LV_UNSET");
     if std::env::var_os("LV_KEEP_TZ").is_none() {
         std::env::set_var("TZ", "<+0545>-5:45");
     }
